@@ -34,6 +34,10 @@ type c20Dist struct {
 	// main loop in the same read as the terminal's answer to the disturber's query, in front of
 	// it ("before") or behind it ("after")
 	TA string `json:"ta,omitempty"`
+	// printf: which application call (Printf below the input, PrintTransientf in its place) and
+	// which text (0 short, 1 two lines, 2 longer than the terminal is wide, 3 empty)
+	Transient bool `json:"transient,omitempty"`
+	Msg       int  `json:"msg,omitempty"`
 }
 
 type c20Case struct {
@@ -104,6 +108,10 @@ func c20Gen(r *rand.Rand, tier string, idx int) any {
 			d.Kind = pick(r, []string{"winch", "printf"})
 			d.TA = pick(r, []string{"", "", "before", "after"})
 		}
+		if d.Kind == "printf" && r.Intn(2) == 0 {
+			d.Transient = r.Intn(2) == 0
+			d.Msg = r.Intn(4)
+		}
 		if d.Trig == "t1" {
 			d.At = r.Intn(n + 1)
 			if len(argAt) > 0 && r.Intn(2) == 0 {
@@ -125,6 +133,18 @@ func c20Clean(c *c20Case) bool {
 		}
 	}
 	return true
+}
+
+// kindName: the disturbance kind as it shows in evidence tuples.
+func (d c20Dist) kindName() string {
+	if d.Kind != "printf" {
+		return d.Kind
+	}
+	n := "printf"
+	if d.Transient {
+		n = "printtransientf"
+	}
+	return n + []string{"", "-two-lines", "-wider-than-the-terminal", "-empty"}[d.Msg%4]
 }
 
 type c20Run struct {
@@ -182,7 +202,12 @@ func c20Session(env *fw.Env, c *c20Case, disturb bool) *c20Run {
 			go func() {
 				defer wg.Done()
 				defer atomic.AddInt64(&printfActive, -1)
-				s.Sh.Printf("async message %d", k)
+				format := []string{"async message %d", "first line %d\nsecond line", "a long message %d " + strings.Repeat("that goes on and on ", 8), "%.0d"}[d.Msg%4]
+				if d.Transient {
+					s.Sh.PrintTransientf(format, k)
+				} else {
+					s.Sh.Printf(format, k)
+				}
 			}()
 		}
 	}
@@ -191,7 +216,7 @@ func c20Session(env *fw.Env, c *c20Case, disturb bool) *c20Run {
 	// goroutines left over from earlier sessions of this worker process are not this session's
 	stale := map[string]bool{}
 	gid := func(g string) string { return strings.SplitN(g, " [", 2)[0] }
-	for _, marker := range []string{"display.WatchResize.func1", "(*Shell).Printf"} {
+	for _, marker := range []string{"display.WatchResize.func1", "(*Shell).Printf", "(*Shell).PrintTransientf"} {
 		for _, g := range sess.Stanzas(sess.AllStacks(), marker) {
 			stale[gid(g)] = true
 		}
@@ -199,7 +224,7 @@ func c20Session(env *fw.Env, c *c20Case, disturb bool) *c20Run {
 	blockedFor := func() string {
 		sigOf := func(dump string) []string {
 			var out []string
-			for _, marker := range []string{"display.WatchResize.func1", "(*Shell).Printf"} {
+			for _, marker := range []string{"display.WatchResize.func1", "(*Shell).Printf", "(*Shell).PrintTransientf"} {
 				for _, g := range sess.Stanzas(dump, marker) {
 					if !strings.Contains(g, "core.(*Keys).GetCursorPos") || stale[gid(g)] {
 						continue
@@ -286,7 +311,7 @@ func c20Session(env *fw.Env, c *c20Case, disturb bool) *c20Run {
 			d := c.Dists[i]
 			fire(s, d)
 			mu.Lock()
-			out.realised = append(out.realised, fmt.Sprintf("t1|%s|settle=false", d.Kind))
+			out.realised = append(out.realised, fmt.Sprintf("t1|%s|settle=false", d.kindName()))
 			mu.Unlock()
 		},
 		// settled disturbances: the gate delivers nothing, the main loop goes to its terminal
@@ -343,7 +368,7 @@ func c20Session(env *fw.Env, c *c20Case, disturb bool) *c20Run {
 					tag := ta
 					env.T.Unlock()
 					mu.Lock()
-					out.realised = append(out.realised, fmt.Sprintf("t1|%s|settled|%s-wait%s", d.Kind, kind, tag))
+					out.realised = append(out.realised, fmt.Sprintf("t1|%s|settled|%s-wait%s", d.kindName(), kind, tag))
 					mu.Unlock()
 				}
 				if delivered {
@@ -429,7 +454,7 @@ func c20Session(env *fw.Env, c *c20Case, disturb bool) *c20Run {
 				h := held
 				held = nil
 				mu.Lock()
-				out.realised = append(out.realised, fmt.Sprintf("t2|%s|%s", heldDist.Kind, heldDist.Order))
+				out.realised = append(out.realised, fmt.Sprintf("t2|%s|%s", heldDist.kindName(), heldDist.Order))
 				mu.Unlock()
 				switch heldDist.Order {
 				case "main-first":
@@ -488,7 +513,7 @@ func c20Session(env *fw.Env, c *c20Case, disturb bool) *c20Run {
 	for k := 0; k < 20; k++ {
 		out.leftover = false
 		dump := sess.AllStacks()
-		for _, marker := range []string{"display.WatchResize.func1", "(*Shell).Printf"} {
+		for _, marker := range []string{"display.WatchResize.func1", "(*Shell).Printf", "(*Shell).PrintTransientf"} {
 			for _, g := range sess.Stanzas(dump, marker) {
 				if !stale[gid(g)] {
 					out.leftover = true
